@@ -75,11 +75,13 @@ func (e *Extractor) clone() *Extractor {
 		warnings:  append([]Warning(nil), e.warnings...),
 		ocrClient: e.ocrClient,
 	}
-	// A reader supplied by the caller (FromReader, FromHTMLReader) is shared and
-	// owned by nobody here. A reader this extractor opened itself stays with it:
-	// the copy opens its own when it needs one, so a terminal operation on one of
-	// them does not close the reader under the other.
-	if !e.ownsReader {
+	// A reader supplied by the caller (FromReader) is shared and owned by nobody
+	// here. A reader this extractor opened itself stays with it: the copy opens
+	// its own when it needs one, so a terminal operation on one of them does not
+	// close the reader under the other. A document given from memory
+	// (FromHTMLReader, FromHTMLString) has no file to open again: the copy
+	// borrows the parsed document and leaves closing it to the source.
+	if !e.ownsReader || e.filename == "" {
 		newExt.reader = e.reader
 		newExt.docxReader = e.docxReader
 		newExt.odtReader = e.odtReader
